@@ -83,6 +83,11 @@ def key_column(draw, n, types=KEY_TYPES, allow_null=True, max_labels=6, name=Non
             nulls = [False] * n
         vals = [None if z else v for v, z in zip(vals, nulls)]
     spec["vals"] = vals
+    if t == "int" and vals and all(isinstance(v, int) and 0 <= v <= 100 for v in vals):
+        # small non-negative labels: held in a narrow / unsigned integer dtype in part of the cases (same logical keys)
+        dt = draw(st.sampled_from(["int64", "int64", "int64", "uint8", "uint32", "uint64", "int16"]))
+        if dt != "int64":
+            spec["dtype"] = dt
     return spec
 
 
